@@ -243,8 +243,23 @@ where
     fn parse(input: ParseStream) -> syn::Result<Self> {
         let mut attrs = ParseableAttributes::default();
 
+        // Each of `sanitize(..)`, `validate(..)`, `derive(..)` and `default = ..` may be given at
+        // most once: a repeated block would otherwise silently replace the earlier one.
+        let mut seen_attrs: Vec<String> = Vec::new();
+
         while !input.is_empty() {
             let ident: Ident = input.parse()?;
+            if ident == "sanitize" || ident == "validate" || ident == "derive" || ident == "default"
+            {
+                let name = ident.to_string();
+                if seen_attrs.contains(&name) {
+                    let msg = format!(
+                        "Attribute `{name}` is specified more than once.\nPlease merge the repeated `{name}` attributes into one."
+                    );
+                    return Err(syn::Error::new(ident.span(), msg));
+                }
+                seen_attrs.push(name);
+            }
             if ident == "sanitize" {
                 if input.peek(Paren) {
                     let content;
